@@ -124,6 +124,9 @@ def o92(ctx):
         env["__salt__"] = 0.5
         ax = "xyz"[i % 3]
         k = i % 3
+        for j_, c_ in enumerate("xyz"):  # the other two axes well inside the box: the axis under test decides
+            if j_ != k:
+                env[c_] = float(rng.integers(int(env[f"s{j_}"]), int(env[f"e{j_}"]) + 1))
         if i % 4 == 0:
             env[ax] = env[f"s{k}"]          # x' == 1: first voxel of the trimmed volume, kept
         elif i % 4 == 1:
@@ -346,8 +349,63 @@ def o96(ctx):
                 ctx.finding(q, what, f"{what}: got {tm.show(t)[:80]}", fn, m)
 
 
+def o98(ctx):
+    """loaders used with per-image data: file values come back complete (sorted only on request, never thinned); array / list doses as given"""
+    q = "ioutils.tlt_load"
+    m, fn = ctx.prog.func(q)
+    ctx.touched(q)
+    THIN = ("numpy.unique", "unique", "numpy.argsort", "builtins.sorted", "builtins.set", "numpy.flip")
+    for srt in (False, True):
+        it = Interp(ctx.prog, no_inline=("ioutils.one_value_per_line_read",))
+        r = it.run(q, [K("series_017.tlt")], {"sort_angles": K(srt)})
+        t = to_term(r.ret)
+        calls_ = [str(n.args[0]) for n in tm.walk(t) if n.op == "call"]
+        sorts = calls_.count("numpy.sort")
+        ctx.count(1, {"tilt file, sort_angles": srt, "returned": tm.show(t)[:100]})
+        bad_thin = [c_ for c_ in calls_ if c_ in THIN]
+        if not any(c_.endswith("one_value_per_line_read") for c_ in calls_) or bad_thin or sorts != (1 if srt else 0):
+            ctx.finding(q, f"file input, sort_angles={srt}", f"tlt_load(file, sort_angles={srt}) must return every value of the file"
+                        f"{', sorted ascending' if srt else ' in file order'} (repeated angles kept); it returns {tm.show(t)[:100]}", fn, m)
+    q2 = "ioutils.total_dose_load"
+    m2, fn2 = ctx.prog.func(q2)
+    ctx.touched(q2)
+    for kind in ("ndarray", "list"):
+        S_ = Space(f"the caller's {kind} of doses", how="root")
+        src = Val(sym("doses_in"), space=S_)
+        amap = {"isinstance(input_dose, np.ndarray)": kind == "ndarray", "isinstance(input_dose, list)": kind == "list",
+                "isinstance(input_dose, (np.ndarray, list))": True, "isinstance(input_dose, str)": False}
+        r = Interp(ctx.prog, assume=assume_map(amap)).run(q2, [src], {})
+        t = to_term(r.ret)
+        bare = t
+        while bare.op == "call" and str(bare.args[0]) in ("numpy.asarray", "numpy.array", ".copy", ".astype") and len(bare.args) > 1:
+            bare = bare.args[1]
+        ctx.count(1, {"dose input": kind, "returned": tm.show(t)[:100]})
+        if bare != sym("doses_in"):
+            ctx.finding(q2, f"{kind} input", f"total_dose_load({kind}) must hand the doses back as given (image i is filtered with dose i, a dose of 0 "
+                        f"leaves the image unchanged); it returns {tm.show(t)[:120]}", fn2, m2)
+
+
+def o97(ctx):
+    """masks given as files: binarize hands back the map in the (x, y, z) axis order the particle coordinates index it with"""
+    from .C11 import perms_in
+    q = "cryomap.binarize"
+    m, fn = ctx.prog.func(q)
+    ctx.touched(q, "cryomap.read")
+    for ext in ("mrc", "em"):
+        it = Interp(ctx.prog)
+        r = it.run(q, [K(f"masks/tomo_017.{ext}")], {})
+        t = to_term(r.ret)
+        ps = perms_in(t)
+        ctx.count(1, {"mask file": ext, "axis permutations on the way": ps})
+        if ps != [(2, 1, 0)]:
+            ctx.finding(q, f"axis order of a .{ext} mask", f"a mask read from a .{ext} file must come back in (x, y, z) order (exactly one (2,1,0) permutation of the "
+                        f"library's (z, y, x) block): the voxel of a particle is looked up as mask[x, y, z]; found {ps}", fn, m)
+
+
 def _obligations():
     return [
+        Obligation("O9.8", "tlt_load(file) returns every value (sorted only on request); total_dose_load hands arrays / lists back as given", o98, floor=4),
+        Obligation("O9.7", "binarize returns file masks in (x,y,z) axis order (the order the coordinates index)", o97, floor=2),
         Obligation("O9.6", "tlt_load returns list / array input as given: tomogram i stays paired with mask i", o96, floor=8),
         Obligation("O9.1", "out-of-bounds removal: both sides, per axis, against the particle's own tomogram", o91, floor=30),
         Obligation("O9.2", "trimming: x' = x - (start-1), kept iff 1 <= x' <= extent on every axis (ties)", o92, floor=70),
